@@ -7,6 +7,33 @@ HAL_RULE = ("cases = (HAL operation out of the 83-entry catalogue in harness/src
             "masks and operand values (extreme, alternating, sparse, uniform classes). Non-trivial = N >= 2 and a non-zero result; distinct = hash of the tuple")
 
 PROPS = {
+    "C15": dict(
+        level="exploration",
+        runs=[dict(name="rel", flavour="rel", shards=16, timeout=2400, timeout_thorough=10800)],
+        rule=("cases are (operation, operand pair, path, thread count) tuples: operands from the boundary dictionary (0, 1, 2, 2^w-1, 2^w-2, 2^(w-1), 2^(w-1)+-1, alternating/byte/nibble "
+              "patterns, every single bit and complement) with probability 0.6, uniform otherwise; the shift-amount grid 0..63 and the (start,end) grid of partial preparation (561 + 153 + 45 "
+              "pairs for u32/u16/u8) are enumerated completely in every run, sharded by index; circuit bootstrapping results are decrypted cell by cell with an exact i128 phase. A case is "
+              "non-trivial unless both operands are zero (ops) / the range is empty (partial) / the rotation is 0 (blind). Distinct = hash of (backend, op, operands, parameters); keys differ per (seed, shard)"),
+        min_evaluations=dict(quick=8000, thorough=60000),
+        min_counters=dict(quick={"shift_amount_grid_0_63": 16, "partial_grid_complete_u32": 16, "cbt_cells_checked": 10000, "pipeline_cases": 150, "program_steps": 200},
+                          thorough={"shift_amount_grid_0_63": 16, "partial_grid_complete_u32": 16, "cbt_cells_checked": 50000, "pipeline_cases": 800, "program_steps": 1000}),
+        assumptions=["suite parameters (N=256, rank 2, base2k 13) plus three further key layouts; word operations exist for u32 only, u8/u16 coverage is encryption, preparation and bit surgery",
+                     "cell tolerances calibrated on the pinned tree (worst observed 0.40 of tolerance); log_domain >= 3 bootstrapping is not generated (noise margin of the suite's parameters)"],
+    ),
+    "C20": dict(
+        level="exploration",
+        runs=[dict(name="rel", flavour="rel", shards=16, timeout=2400, timeout_thorough=10800),
+              dict(name="tsan", flavour="tsan", shards=1, timeout=2400, timeout_thorough=10800, args=["--mode", "tsan-small", "--backend", "fft64avx,fft64ref"])],
+        rule=("a case is one multi-thread execution (entry point, thread count, (start,len), schedule seed): its output bytes are compared with the sequential entry point's and its hook event log is "
+              "checked offline (exactly one ItemStart/ItemEnd per index, one worker, disjoint intervals, nothing out of range). Thread counts 1..=32, 33, 40, 64 x 11 operations and all 528 (start,len) "
+              "ranges are enumerated in every run (sharded); perturbed schedules come from seeded yield/sleep tables; shared-Module stress replays every thread's sequence alone. An interleaving is the "
+              "hash of the global order of (worker,index) ItemStart events of a run with >= 2 workers"),
+        min_evaluations=dict(quick=3000, thorough=20000),
+        min_counters=dict(quick={"byte_comparisons": 1500, "event_logs_checked": 1500, "perturbed_runs": 500, "hook_perturbations_applied": 1, "distinct_interleavings_observed": 500, "stress_ops_compared": 800},
+                          thorough={"byte_comparisons": 6000, "event_logs_checked": 6000, "perturbed_runs": 2000, "hook_perturbations_applied": 1, "distinct_interleavings_observed": 2000, "stress_ops_compared": 4000}),
+        assumptions=["ThreadSanitizer sees only the interleavings executed and does not instrument the hand-written assembly kernels; the exactly-once checker is schedule independent",
+                     "the tsan run is a reduced workload (thread counts 1,2,3,5,32,40 x add/sll/identity, partial preparation, one stress round)"],
+    ),
     "C10": dict(
         level="exploration",
         runs=[dict(name="rel", flavour="rel", shards=16, timeout=1200, timeout_thorough=7200)],
